@@ -37,6 +37,7 @@ def run(ctx):
     check_trim(ctx, prog)
     check_split_model(ctx, prog)
     check_valist(ctx, prog)
+    check_search_model(ctx, prog)
     import nullret
     nullret.check(ctx, prog, 'C03', ('String.cpp',))
     import litread
@@ -1104,3 +1105,68 @@ def check_parse_back(ctx, prog):
             n += 1
             ctx.check(bad is None, 'C03.parse', f['pq'], role, fwhere(f), 'interpreted on the decimal texts of %d representative values' % len(reps), bad or '')
     ctx.floor('C03.parse conversions interpreted', n, 3)
+
+
+
+def check_search_model(ctx, prog):
+    """C03.find: the search members agree with the byte-string model and read only the text.  indexOf(char, from),
+    indexOf(text, from), lastIndexOf(char) and lastIndexOf(text) are interpreted (scansim) on every text over {a, b} up to 4
+    characters that sits in a buffer with two stale bytes behind its terminator (what a shortened String leaves there), for
+    every start offset 0..length: the result is Python's find / rfind on the text, and no read passes the buffer."""
+    import scansim, itertools
+    cases = (('asl::String::indexOf', '(char,int)const', 'c'), ('asl::String::indexOf', '(const char *,int)const', 's'),
+             ('asl::String::lastIndexOf', '(char)const', 'rc'), ('asl::String::lastIndexOf', '(const char *)const', 'rs'))
+    n = 0
+    for name, sig, kind in cases:
+        fs = [g for g in prog.fn(name, sig) if g.get('body')]
+        if not fs:
+            continue
+        f = fs[0]
+        ctx.analysed(f)
+        role = '%s%s:result of the byte-string model, reads inside the text' % (f['n'], sig)
+        bad = und = None
+        runs = 0
+        needles = ('a', 'b', 'x') if kind in ('c', 'rc') else ('a', 'ab', 'ba', 'x', 'bx')
+        for L in range(0, 5):
+            for t in itertools.product('ab', repeat=L):
+                text = ''.join(t)
+                for nd in needles:
+                    for i0 in (range(0, L + 1) if kind in ('c', 's') else (None,)):
+                        for stale in ('xb', 'ax'):
+                            bufs = {'T': [ord(c) for c in text] + [0] + [ord(c) for c in stale]}
+                            if kind in ('s', 'rs'):
+                                bufs['N'] = [ord(c) for c in nd] + [0]
+                            pp = {f['params'][0]['id']: ('P', 'N', 0)} if kind in ('s', 'rs') else {}
+                            ip = {f['params'][0]['id']: ord(nd)} if kind in ('c', 'rc') else {}
+                            if i0 is not None:
+                                ip[f['params'][1]['id']] = i0
+                            r = scansim.Run(prog, f, bufs, ptr_params=pp, int_params=ip, call_ptrs={'str': ('P', 'T', 0), 'data': ('P', 'T', 0)}, methods={'*': 'interp'}, mems={'_len': L}, objects=True)
+                            runs += 1
+                            call = '"%s"%s.%s(%s%s)' % (text, ' (followed by stale "%s")' % stale, f['n'], repr(nd), '' if i0 is None else ', %d' % i0)
+                            try:
+                                got = r.run()
+                            except scansim.OOB as o:
+                                bad = '%s reads outside the string: %s' % (call, o)
+                                break
+                            except (scansim.Unsupported, TypeError, KeyError, IndexError, ValueError) as u:
+                                und = str(u)
+                                break
+                            want = text.find(nd, i0) if i0 is not None else text.rfind(nd)
+                            if got != want:
+                                bad = '%s returns %s, the model gives %d (length %d): bytes behind the terminator take part in the search' % (call, got, want, L)
+                                break
+                        if bad or und:
+                            break
+                    if bad or und:
+                        break
+                if bad or und:
+                    break
+            if bad or und:
+                break
+        ctx.evaluations += runs
+        if und and not bad:
+            ctx.info['search_' + f['n'] + sig] = 'outside the interpreted fragment: %s' % und
+            continue
+        n += 1
+        ctx.check(bad is None, 'C03.find', f['pq'], role, fwhere(f), 'interpreted on %d (text, needle, offset) cases' % runs, bad or '')
+    ctx.floor('C03.find', n, 2)
